@@ -206,6 +206,11 @@ def check(ctx):
             if (not wants_int) and st[0] == "err":
                 ctx.fail("a cast/simulate operation raised", c2, key=f"dtype:op-error:{op[0]}", detail=st[1])
                 break
+            if st[0] == "ok" and op[0] in ("to", "method", "to_tensor") and op[1] in ("f16", "bf16", "f32", "f64") and o["declared"] != op[1]:
+                # to(dtype) / float() / double() / half() / bfloat16() / to(tensor): the instrument must now declare the requested dtype
+                ctx.fail("after a cast the instrument does not declare the requested dtype", c2, key="dtype:cast-target",
+                         detail={"requested": op[1], "form": op[0], "declared": o["declared"], "via_derivative": case["via_derivative"]})
+                break
             if o["declared"] is not None:
                 badb = [b for b in o["buffers"] if b[1] != o["declared"]]
                 if badb:
